@@ -851,6 +851,7 @@ impl NodeId {
     /// Panics if:
     ///
     /// * the given new sibling is `self`, or
+    /// * the given new sibling is an ancestor of `self`, or
     /// * the current node or the given new sibling was already [`remove`]d.
     ///
     /// To check if the node is removed or not, use [`Node::is_removed()`].
@@ -933,6 +934,12 @@ impl NodeId {
         if arena[self].is_removed() || arena[new_sibling].is_removed() {
             return Err(NodeError::Removed);
         }
+        if self
+            .ancestors(arena)
+            .any(|ancestor| new_sibling == ancestor)
+        {
+            return Err(NodeError::InsertAfterAncestor);
+        }
         new_sibling.detach(arena);
         let (next_sibling, parent) = {
             let current = &arena[self];
@@ -951,6 +958,7 @@ impl NodeId {
     /// Panics if:
     ///
     /// * the given new sibling is `self`, or
+    /// * the given new sibling is an ancestor of `self`, or
     /// * the current node or the given new sibling was already [`remove`]d.
     ///
     /// To check if the node is removed or not, use [`Node::is_removed()`].
@@ -1032,6 +1040,12 @@ impl NodeId {
         }
         if arena[self].is_removed() || arena[new_sibling].is_removed() {
             return Err(NodeError::Removed);
+        }
+        if self
+            .ancestors(arena)
+            .any(|ancestor| new_sibling == ancestor)
+        {
+            return Err(NodeError::InsertBeforeAncestor);
         }
         new_sibling.detach(arena);
         let (previous_sibling, parent) = {
